@@ -18,8 +18,11 @@
          case req := <-queue:                    -> PDeq m  alternative AltQueue
             reading.Store(false)               PDeq m  -> PBusy m   ("MarkBusy")
             cc.ProcessReceivedMessage(req)     PBusy m -> PRun m (handler program)   ("Dispatch m")
+                 (udp handleReq, message-ID lock taken: PBusy m -> PLock m -> PRun m ...; see below)
                  handler: TryToReplaceLoop()   PRun m (HReplace :: ops) -> PRun m ops
                           nested Do            PRun m (HNested r :: ops) -> PWait m r ops -> PRun m ops
+                          waitForAcknowledge   PRun m (HAck r :: ops)    -> PWaitS m r ops -> PRun m ops
+                          Ping                 PRun m (HPing r :: ops)   -> PWaitS m r ops -> PRun m ops
             mutex.Lock; reading.Store(true); mutex.Unlock     PRun m [] -> PCheck
             [repaired code only]  select { case <-loopDone: return; default: }   PCheck -> PExit | PSelect
          case <-cc.Done(): return                -> PExit   alternative AltConn
